@@ -654,6 +654,37 @@ def run(ctx):
             bad_spec.append((case, sp))
         elif md:
             bad_model.append((case, md))
+    # Tail stream (implementation only): after a history inside the calling convention, ONE bulk add whose
+    # second member names the LATER node first on an undirected-type layer.  Such a call is outside the
+    # documented convention, so nothing is demanded of it - except the property's last clause: IF it
+    # raises, every edge set and max_lag are unchanged.  (Accepted calls are not judged.)
+    tails = []
+    for case in cases:
+        kinds = CLASSES[case["cls"]]["kinds"]
+        if "u" not in kinds or case.get("m", 0) < 1 or len(case["ops"]) > 8 or len(tails) >= (400 if ctx["tier"] == "quick" else 4000):
+            continue
+        if any(o[0] in ("ou", "cp", "rv") for o in case["ops"]):
+            continue
+        sel = "*" if len(kinds) == 1 else kinds.index("u")
+        tail = ["ab", sel, [[[0, -1], [1, 0]], [[1, 0], [0, -1]]]]
+        tails.append(dict(case, ops=case["ops"] + [tail], src="tail-unconventional"))
+    tail_bad = []
+    for tc, tr in zip(tails, C.pmap(impl_run, tails, chunksize=32)):
+        ev.count("tail:bulk-add-later-node-first")
+        steps = tr.get("steps", [])
+        if len(steps) == len(tc["ops"]) and len(steps) >= 1 and steps[-1]["raised"]:
+            prev_st = steps[-2]["st"] if len(steps) >= 2 else "m=%d/N=/L=%s" % (tc["m"], "|" * (len(CLASSES[tc["cls"]]["kinds"]) - 1))
+            ev.count("tail:raised")
+            if edges_part(steps[-1]["st"]) != edges_part(prev_st):
+                tail_bad.append((tc, prev_st, steps[-1]))
+    if tail_bad:
+        tc, prev_st, last = min(tail_bad, key=lambda t: len(t[0]["ops"]))
+        out.violation(tc, {"kind": "raise-changed", "step": len(tc["ops"]) - 1,
+                           "detail": "the bulk add raised %s but changed max_lag or an edge set: %s -> %s"
+                                     % (last.get("exc"), prev_st, last["st"]),
+                           "note": "the last operation is outside the calling convention; only 'a raising call "
+                                   "leaves every edge set and max_lag unchanged' is demanded of it",
+                           "histories_with_this_problem": len(tail_bad)})
     ev.extra["states_decided_by_lean_decider"] = len(states)
     ev.extra["exhaustive_part"] = "all histories up to length %d over the reduced alphabet" % (2 if ctx["tier"] == "quick" else 3)
     if bad_spec or bad_model:
